@@ -4,6 +4,22 @@ import json, sys
 props=[json.loads(l)['id'] for l in open('/verif/properties.jsonl')]
 TECH="bounded symbolic execution of the real go/ssa code; every branch, panic guard and assertion decided by SMT (z3, cross-checked with z3 5.1 and cvc5); counterexamples replayed natively"
 CHECKS={
+ "C17": dict(
+   text="Bounded model checking by symbolic execution, inductive over server scripts: from any state in which the client's idea of its nick equals the server's (symbolic nicks, tracking on/off with the real tracker and another tracked user, default or uninterpreted custom generator) one server event - 433 before the welcome, 001 confirming or changing the nick (with/without nick!user@host), own NICK in both parameter forms, 433 after the welcome, NICK of another user - goes through the real ParseLine, dispatch and handlers; afterwards Me().Nick is again the server's nick, Me() and Config().Me are non-nil, and a collision is answered by exactly NICK <generator(refused)>. DefaultNewNick is checked for every byte string of length 1..3.",
+   ref="DESIGN.md §4 C17",
+   note="Bounds: nicks 1..2 bytes (quick) / 1..3 (thorough), at most one other tracked user. Server conformance assumed as in the property. Found D8 (Config().Me nil after a confirming 001), fixed in /repo d212308."),
+ "C18": dict(
+   text="Bounded model checking by symbolic execution: (a) the real h_REGISTER with symbolic negotiation flag, password, nick, ident, name: exact line sequence; (b) the real ConnectContext/internalConnect/dialProxy through a harness proxy dialler: dialled address equals the configured one with :6667/:6697 added iff no port was given, a failed dial or handshake fires nothing, a successful one dispatches REGISTER once before returning and the registration reaches the wire; (c) the real h_PING for symbolic tokens, also a >4096-byte token through the real recv loop; (d) the real postConnect/ping: the ping goroutine exists iff PingFreq > 0 (symbolic), and pings once per tick until cancelled.",
+   ref="DESIGN.md §4 C18",
+   note="Stubs: proxy.FromURL dispatching to the harness dialler, tls (handshake always fails), time.NewTicker with queued ticks, fmt.Sprintf model. The direct (non-proxy) dial path and real TLS are outside. Goroutine-count and ticker observations are 'monitor:' assertions (executor only)."),
+ "C19": dict(
+   text="Bounded model checking by symbolic execution of the real h_CAP, negotiateCapabilities, handleCapAck/Nak, capSet, h_AUTHENTICATE, h_903/904/908, Cap, splitArgs and the real go-sasl PLAIN/EXTERNAL clients over a universe of two symbolic capability names plus sasl: every subset wanted/advertised/acknowledged, NAK, later ACK of -cap, all SASL outcomes; asserted: the REQ line is exactly the sorted intersection, HasCapability iff last ACK enabled it, exactly the prescribed CAP END lines, AUTHENTICATE <mech> only after ACK and the base64 payload only after the server's AUTHENTICATE +; long requests are split with every name once, in order, within the limit.",
+   ref="DESIGN.md §4 C19",
+   note="Bounds: 2 names of 1..2 symbolic bytes + sasl; credentials 0..1 bytes; split with name lengths 220, 216..224, 1..3, 440. base64 is an exact symbolic model; sort.Strings forks on comparisons."),
+ "C20": dict(
+   text="Bounded model checking by symbolic execution of a whole session per path (real ConnectContext via a stub dialler, h_REGISTER, send/recv/runLoop as coroutines, write with a failing k-th socket write, received lines, Close) with a capturing logging.Logger installed through the real SetLogger: every format string and every string/error argument of every logger call is asserted not to contain the symbolic password; PASS lines appear only masked.",
+   ref="DESIGN.md §4 C20",
+   note="Bounds: password 1..2 (quick) / 1..4 (thorough) symbolic bytes over an alphabet disjoint from the library's own log texts, also behind a 520-byte filler. fmt.Sprintf/Errorf are modelled faithfully for %s/%v/%d/%q so formatted errors keep their operands. Flood=true (C10 covers the limiter)."),
  "C12": dict(
    text="Bounded model checking by symbolic execution, inductive in the history: the pre-state is ANY valid tracker state over a small universe (nick and channel slots, membership relation, every attribute, mode flag and privilege a solver variable) built directly in the heap as the real two-way maps; one real Tracker method call with symbolic arguments (go/ssa of state/tracker.go, nick.go, channel.go) is compared with a ~150-line relational model: equal return value, equal answer to every query (GetNick/GetChannel/IsOn/Me for every name of the universe plus the arguments), representation invariant kept. Map iteration inside delChannel/delNick/Wipe/ReNick is explored in every order. NewTracker is the base case, so histories of any length are covered by induction over the invariant.",
    ref="DESIGN.md §4 C12",
